@@ -35,8 +35,10 @@ func zzC03x(n int, percent, sharedVariants, unknownReadiness bool) {
 	ds := zzDaemonset(map[string]string{})
 	if percent {
 		if nondet.Thorough() {
-			ds.Spec.Strategy.RollingUpdate.MaxUnavailable = zzIntOrString("maxUnavailable", 0, "0%", "1%", "34%", "50%", "100%", "150%")
-			ds.Spec.Strategy.RollingUpdate.MaxPodSchedulerFailure = zzIntOrString("maxSchedFail", 0, "0%", "1%", "34%", "50%", "100%", "150%")
+			// (six values each on four nodes took 22 minutes; the thorough tier keeps four nodes and widens the
+			// alphabets by the rounding cases 1% and 100% on one side only)
+			ds.Spec.Strategy.RollingUpdate.MaxUnavailable = zzIntOrString("maxUnavailable", 0, "0%", "1%", "34%", "67%", "100%", "150%")
+			ds.Spec.Strategy.RollingUpdate.MaxPodSchedulerFailure = zzIntOrString("maxSchedFail", 0, "0%", "50%")
 		} else {
 			ds.Spec.Strategy.RollingUpdate.MaxUnavailable = zzIntOrString("maxUnavailable", 0, "0%", "34%", "67%", "150%")
 			ds.Spec.Strategy.RollingUpdate.MaxPodSchedulerFailure = zzIntOrString("maxSchedFail", 0, "0%", "50%")
